@@ -413,6 +413,16 @@ Proof.
   apply (jobs_rows gen_row_serial (fun r => eq_trans (row_serial_flat _ _) (flat_of_row r))).
 Qed.
 
+Lemma hybrid_ext (c1 c2 : bool -> Meth -> vec -> F -> nat -> st -> st) :
+  (forall cd m x h n s, c1 cd m x h n s = c2 cd m x h n s) ->
+  forall lm hm x h n hs, hybrid_calculate E Meth c1 lm hm x h n hs = hybrid_calculate E Meth c2 lm hm x h n hs.
+Proof.
+  intros He lm hm x h n hs. unfold hybrid_calculate.
+  destruct (negb (hybrid_valid n hs)); [reflexivity|]. rewrite He.
+  destruct (remove_h_method_rows hs (calc_rows E (c2 false lm x h n (mkSt E [] (zeros E))))); [|reflexivity].
+  rewrite He. reflexivity.
+Qed.
+
 (* ---- symmetrisation ---- *)
 Lemma symmetrise_entry (H : mat) r c : gen_symmetrise E H r c = (H r c + H c r) / two.
 Proof. reflexivity. Qed.
